@@ -66,6 +66,16 @@ func genC11(seed uint64, tier string) any {
 			}
 		}
 	}
+	// insertion order: issuer-first (as generated) or shuffled, so that edges are also attached by the fix-up of
+	// dangling edges before the walk
+	if r.Chance(1, 2) {
+		perm := r.Perm(len(sc.InGraph))
+		sh := make([]int, len(sc.InGraph))
+		for i, j := range perm {
+			sh[i] = sc.InGraph[j]
+		}
+		sc.InGraph = sh
+	}
 	// start: usually the deepest / a random certificate, sometimes one that is not in the graph
 	sc.Start = r.Intn(len(p.Certs))
 	if deep {
@@ -209,6 +219,17 @@ func execC11(t *testing.T, scAny any, keepLog bool) *Outcome {
 	}
 	o.count(fmt.Sprintf("probe.longest_path_%02d", longest), 1)
 	o.count("probe.required_paths", len(required))
+	issuerless := map[string]bool{}
+	for _, e := range g.Edges() {
+		if verifier.VerifEdge(e).Issuer == nil {
+			issuerless[fmt.Sprintf("%x", []byte(e.Certificate.FingerprintSHA256))] = true
+		}
+	}
+	for _, k := range required {
+		if i := strings.LastIndex(k, ">"); i >= 0 && issuerless[k[i+1:]] {
+			o.count("probe.path_ends_at_issuerless_root", 1)
+		}
+	}
 
 	var async []string
 	var syncRes []string
@@ -346,7 +367,7 @@ func init() {
 		Real:   []string{"Graph.WalkChains, Graph.WalkChainsAsync, the walker goroutine and its channel, canAddToChain", "Graph.AddCert/AddRoot to build the graph"},
 		Stub:   []string{"consumer (paced by simulated time)", "reference enumeration over the verif-tagged accessor view", "certificates from the fixed key pool"},
 		Assume: []string{"'never revisits a (subject, key) pair' is modelled on the issuer identities moved to", "paths of at most 9 certificates must be returned, paths of 10-11 certificates and root certificates exceeding their own path-length limit may be returned, anything else is a violation"},
-		FaultKinds: []string{"probe.start_outside_graph", "probe.required_paths", "probe.race_reports", "probe.race_in_harness", "probe.longest_path_09", "probe.longest_path_10", "probe.longest_path_11"},
+		FaultKinds: []string{"probe.start_outside_graph", "probe.required_paths", "probe.race_reports", "probe.race_in_harness", "probe.path_ends_at_issuerless_root", "probe.longest_path_09", "probe.longest_path_10", "probe.longest_path_11"},
 		NotInjected: "the only environment here is the schedule between walker and consumer (channel size, pacing); no transport or storage",
 		EngineB:     true,
 		Gen:         genC11, New: func() any { return &c11Scenario{} }, Exec: execC11, Shrink: shrinkC11,
